@@ -7,10 +7,33 @@ use rooc::model_transformer::{Constraint, Exp, Model, Objective};
 use rooc::{BinOp, Linearizer, UnOp};
 use crate::gen_model::{self, ModelCfg};
 
+/// NaN sign and payload are not observable through `f64` arithmetic and comparisons (x86 produces the
+/// "negative" default NaN for `0 * inf`, Lean's `Float.toBits` the canonical positive one): every NaN bit
+/// pattern in an encoded tree is replaced by the canonical quiet NaN before model and implementation are diffed.
+fn canon_nan(s: &str) -> String {
+    let b = s.as_bytes();
+    let mut out = String::with_capacity(s.len());
+    let mut i = 0;
+    while i < b.len() {
+        if b[i] == b'#' && i + 18 <= b.len() && b[i + 1] == b'x' {
+            if let Ok(bits) = u64::from_str_radix(&s[i + 2..i + 18], 16) {
+                if f64::from_bits(bits).is_nan() {
+                    out.push_str("#x7ff8000000000000");
+                    i += 18;
+                    continue;
+                }
+            }
+        }
+        out.push(b[i] as char);
+        i += 1;
+    }
+    out
+}
+
 fn one(e: &Exp, which: &str, tag: &str) -> Case {
-    let req_e = sx::exp(e);
+    let req_e = canon_nan(&sx::exp(e));
     let out = if which == "simplify" { e.simplify() } else { e.clone().flatten() };
-    let out_s = sx::exp(&out);
+    let out_s = canon_nan(&sx::exp(&out));
     let mut c = Case::default();
     c.req = format!("{} {}", which, req_e);
     c.imp = format!("(ok {})", out_s);
@@ -21,7 +44,7 @@ fn one(e: &Exp, which: &str, tag: &str) -> Case {
     if which == "simplify" {
         // idempotence, checked on the implementation directly
         let twice = out.simplify();
-        if sx::exp(&twice) != out_s {
+        if canon_nan(&sx::exp(&twice)) != out_s {
             c.impl_violation = Some(format!("simplify not idempotent: {} -> {} -> {}", e, out, twice));
         }
     }
@@ -41,6 +64,14 @@ fn respell_const(r: &mut Rng, c: f64) -> Exp {
 
 /// re-spell coefficients: `k * e`, `e * k`, `e / k` with `k` written differently (or the operands swapped)
 fn respell(r: &mut Rng, e: &Exp) -> Exp {
+    // `e / k`  <->  `e * (1/k)` for divisors whose reciprocal is exact
+    if let Exp::BinOp(BinOp::Div, a, b) = e {
+        if let Exp::Number(k) = **b {
+            if [2.0, -2.0, 4.0, 0.5, -0.5, -1.0, 1.0, -4.0].contains(&k) && r.chance(1, 2) {
+                return Exp::BinOp(BinOp::Mul, Box::new(respell(r, a)), Box::new(Exp::Number(1.0 / k)));
+            }
+        }
+    }
     let mut go = |x: &Exp| Box::new(respell(r, x));
     match e {
         Exp::Number(_) | Exp::Variable(_) => e.clone(),
@@ -85,7 +116,7 @@ fn respell_case(r: &mut Rng) -> Option<Case> {
             match r.below(3) { 0 => Exp::Max(vec![a, b]), 1 => Exp::Min(vec![a, b]), _ => Exp::Abs(Box::new(a)) }
         };
         let k = *r.pick(&[-2.0, -1.0, -3.0, 2.0, -0.5]);
-        let scaled = Exp::BinOp(BinOp::Mul, Box::new(Exp::Number(k)), Box::new(piece(r)));
+        let scaled = if r.chance(1, 3) { Exp::BinOp(BinOp::Div, Box::new(piece(r)), Box::new(Exp::Number(*r.pick(&[2.0, 4.0, -2.0])))) } else { Exp::BinOp(BinOp::Mul, Box::new(Exp::Number(k)), Box::new(piece(r))) };
         let mut cons = m.constraints().clone();
         let mut obj = m.objective().rhs.clone();
         if r.chance(2, 3) { cons.push(Constraint::new(scaled, gen_model::comparison(r), Exp::Number(gen_model::constant(r, false)), String::new())); }
@@ -132,6 +163,35 @@ pub fn generate(seed: u64, n: usize, thorough: bool, _corpus: Option<&str>) -> V
     for e in gen_exp::enumerate(size, &leaves) {
         cases.push(one(&e, "simplify", "exhaustive"));
         cases.push(one(&e, "flatten", "exhaustive"));
+    }
+    // regression inputs found by earlier thorough runs (machinery false alarms and finding variants)
+    {
+        use rooc::{BinOp, UnOp};
+        let n = |v: f64| Exp::Number(v);
+        let x = || Exp::Variable("x".into());
+        let b = |op: BinOp, l: Exp, r: Exp| Exp::BinOp(op, Box::new(l), Box::new(r));
+        let regress = vec![
+            // NaN sign: 0 * inf
+            b(BinOp::Mul, n(0.0), n(f64::INFINITY)),
+            Exp::Xor(Box::new(x()), Box::new(b(BinOp::Mul, n(0.0), n(f64::INFINITY)))),
+            // underflow to zero in a folded divisor / factor
+            b(BinOp::Div, n(4.0), b(BinOp::Add, b(BinOp::Div, n(5e-324), n(4.0)), n(0.0))),
+            Exp::Iff(Box::new(b(BinOp::Div, n(1.0), x())), Box::new(b(BinOp::Mul, n(2e-5), n(5e-324)))),
+            // one ulp in a folded constant, amplified by cancellation
+            b(BinOp::Div, Exp::And(vec![]), b(BinOp::Add, x(), b(BinOp::Div, n(2.0), n(1.000000001)))),
+            // divisor undefined (empty max) but folded to a literal below an absorbing constant
+            b(BinOp::Div, n(0.2), b(BinOp::Or, Exp::Max(vec![]), n(-2.0))),
+            b(BinOp::Div, n(1.0), b(BinOp::Sub, b(BinOp::Mul, Exp::Min(vec![]), n(0.0)), n(1.0))),
+            // singleton collapse inside a divisor
+            Exp::UnOp(UnOp::Neg, Box::new(b(BinOp::Div, x(), b(BinOp::Sub, b(BinOp::Add, n(1.0), x()), Exp::Or(vec![x()]))))),
+            // the two known findings, minimal
+            b(BinOp::Mul, n(0.0), b(BinOp::Div, x(), n(0.0))),
+            Exp::And(vec![x(), n(1.0)]),
+        ];
+        for e in &regress {
+            cases.push(one(e, "simplify", "regression"));
+            cases.push(one(e, "flatten", "regression"));
+        }
     }
     let cfgs = [
         ExpCfg { vars: vec!["x".into(), "y".into(), "z".into()], logic: true, minmax: true, special: false },
